@@ -386,8 +386,10 @@ impl<S: SelfEmulation> VerifierGadget<S> {
 
         let instance_evals = {
             let instance_queries = cs.instance_queries();
-            let min_rotation = instance_queries.iter().map(|(_, rot)| rot.0).min().unwrap();
-            let max_rotation = instance_queries.iter().map(|(_, rot)| rot.0).max().unwrap();
+            // A constraint system without instance queries needs no Lagrange evaluation (the
+            // off-circuit verifier starts its (min, max) fold from (0, 0)).
+            let min_rotation = instance_queries.iter().map(|(_, rot)| rot.0).min().unwrap_or(0);
+            let max_rotation = instance_queries.iter().map(|(_, rot)| rot.0).max().unwrap_or(0);
 
             let max_instance_len =
                 assigned_instances.iter().map(|instance| instance.len()).max().unwrap_or(0);
@@ -408,6 +410,11 @@ impl<S: SelfEmulation> VerifierGadget<S> {
                         transcript.read_scalar(layouter)
                     } else {
                         let instances = assigned_instances[column.index() - nb_committed_instances];
+                        if instances.is_empty() {
+                            // An instance column without values is the zero polynomial
+                            // (`inner_product` rejects empty inputs).
+                            return self.scalar_chip.assign_fixed(layouter, S::F::ZERO);
+                        }
                         let offset = (max_rotation - rotation.0) as usize;
                         inner_product(
                             layouter,
